@@ -2,7 +2,7 @@
    Property theorems only, about the model Chain/LogIndex.v of /repo/core/filtermaps and
    /repo/eth/filters/filter.go; each closed by [exact] of a lemma of
    Chain/LogIndexProofs.v, LogIndexSeq.v, LogIndexQuery.v, LogIndexLayout.v, LogIndexExact.v,
-   LogIndexHistory.v.
+   LogIndexHistory.v, LogIndexDyn.v.
 
    The row and column hash functions are arbitrary ([row_hash], [col_index]); the only
    hypothesis on them is [col_high]: the bits of a column index above hashBits are
@@ -31,14 +31,24 @@
    (deleteTailEpoch incl. Range.SetFirst) and tail epoch indexing — C40_inv_step,
    C40_inv_init — hence THE PROPERTY at every state of every history of such operations:
    C40_history_exact.
+   RUNNING QUERIES: the search session as a state machine over an environment (per
+   environment call - SyncLogIndex / CurrentView - the canonical chain, the index and the
+   ValidBlocks a sync reports; the chain and the index may change between any two calls):
+   C40_trim_scan (searchSession.trimMatches of a scan = the scan of the trimmed range:
+   keep the logs with first <= BlockNumber <= last) and C40_dyn_exact: for ANY environment
+   whose syncs satisfy the SyncLogIndex contract, the accumulated matches are exactly the
+   matching logs of the session's final chain view over the requested range, in order, no
+   duplicates; C40_sync_contract derives the contract from the index invariant of the
+   world the search ran on plus the meaning of ValidBlocks (blocks unchanged since the
+   previous sync).
    NOT proved (correspondence only): that the real renderer's batching, snapshots,
-   temp ranges and lastCanonicalMapBoundaryBefore realise these operations with their
+   temp ranges and lastCanonicalMapBoundaryBefore realise the indexer operations with their
    guards (the first indexed block is shared with the target chain; the restart map lies
-   inside the shared prefix — C40_restart_map_guard derives this guard from the Go
-   criterion "the stored last block of the previous map is canonical in the target view
-   and the map is not the last rendered one"); queries racing the indexer (the model's
-   search session runs on a frozen index). *)
-From GV Require Import Lib.Tactics Chain.LogIndex Chain.LogIndexProofs Chain.LogIndexSeq Chain.LogIndexQuery Chain.LogIndexLayout Chain.LogIndexExact Chain.LogIndexHistory.
+   inside the shared prefix - C40_restart_map_guard derives this guard from the Go
+   criterion); that FilterMaps computes ValidBlocks as the contract requires; searches that
+   overlap an index update in time (the environment changes only between a session's
+   calls, as in the deterministic interleavings of the harness). *)
+From GV Require Import Lib.Tactics Chain.LogIndex Chain.LogIndexProofs Chain.LogIndexSeq Chain.LogIndexQuery Chain.LogIndexLayout Chain.LogIndexExact Chain.LogIndexHistory Chain.LogIndexDyn.
 Local Open Scope N_scope.
 
 (* A value inserted at lv while rendering map m is among the potential matches the
@@ -282,6 +292,86 @@ Theorem C40_restart_map_guard :
 Proof. exact (fun P => restart_map_guard P idv idv (fun _ _ _ => 0) (fun _ _ => 0)). Qed.
 Print Assumptions C40_restart_map_guard.
 
+(* searchSession.trimMatches applied to the scan of blocks x..y-1 leaves the scan of the
+   intersection with the trim range (or nothing): no log of a block outside the range
+   survives, none inside is lost *)
+Theorem C40_trim_scan :
+  forall c addrs topics, wf_chain c ->
+  forall x y a z ms, x < y -> scan c addrs topics x (y - 1) = Some ms ->
+  trim_ok c addrs topics (x, y) (trim_matches (a, z) (x, y) ms) /\
+  (forall x' y', fst (trim_matches (a, z) (x, y) ms) = (x', y') -> x' < y' -> a <= x' /\ y' <= z).
+Proof. exact trim_scan. Qed.
+Print Assumptions C40_trim_scan.
+
+(* a query RUNNING while the chain and the index move: for any environment (chain, index
+   and sync result per environment call) that satisfies the SyncLogIndex contract, the
+   result is exactly the scan of the chain view of the session's last CurrentView call
+   over the requested range *)
+Theorem C40_dyn_exact :
+  forall (P : params) (addr_value topic_value : N -> N)
+         (row_hash : N -> nat -> N -> N) (col_index : N -> N -> N)
+         fuel (env_world : nat -> dworld) (env_valid : nat -> rng) addrs topics firstB lastB,
+  (forall t, wf_chain (dw_chain (env_world t))) ->
+  (forall t view x y res, wf_chain view -> x < y ->
+     (exists ts, (ts <= t - 1)%nat /\ fst (indexed_blocks (dw_rg (env_world ts))) <= x /\
+                 y <= snd (indexed_blocks (dw_rg (env_world ts)))) ->
+     indexed_logs P addr_value topic_value row_hash col_index fuel
+                  (dw_chain (env_world (t - 1)%nat)) (dw_ix (env_world (t - 1)%nat)) (dw_rg (env_world (t - 1)%nat))
+                  x (y - 1) addrs topics = Some (IxLogs res) ->
+     trim_ok view addrs topics (x, y)
+             (trim_matches (rng_inter (env_valid t) (0, shared_len view (dw_chain (env_world t)))) (x, y) res)) ->
+  forall ms,
+  d_range_logs P addr_value topic_value row_hash col_index fuel env_world env_valid addrs topics firstB lastB = DOk ms ->
+  exists t, let view := dw_chain (env_world t) in
+            scan view addrs topics (resolve firstB view) (resolve lastB view) = Some ms.
+Proof. exact dyn_exact. Qed.
+Print Assumptions C40_dyn_exact.
+
+(* the SyncLogIndex contract follows from the index invariant of the world the search ran
+   on (so the raw result is the scan of that world's chain), and the meaning of
+   ValidBlocks: the blocks of V are the same at search time and at sync time *)
+Theorem C40_sync_contract :
+  forall (P : params) (addr_value topic_value : N -> N)
+         (row_hash : N -> nat -> N -> N) (col_index : N -> N -> N),
+  (forall lv v, N.shiftr (col_index lv v) (p_hbits P) = lv mod vpm P) ->
+  p_brl P < two32 ->
+  forall fuel0 fuel (ws wy : dworld) (V : rng) view addrs topics x y res,
+  inv P addr_value topic_value row_hash col_index fuel0 (mkIState (dw_chain ws) (dw_ix ws) (dw_rg ws)) ->
+  wf_chain (dw_chain ws) ->
+  (forall b, fst V <= N.of_nat b -> N.of_nat b < snd V ->
+             nth_error (dw_chain ws) b = nth_error (dw_chain wy) b) ->
+  x < y -> fst (indexed_blocks (dw_rg ws)) <= x -> y <= snd (indexed_blocks (dw_rg ws)) ->
+  indexed_logs P addr_value topic_value row_hash col_index fuel (dw_chain ws) (dw_ix ws) (dw_rg ws)
+               x (y - 1) addrs topics = Some (IxLogs res) ->
+  trim_ok view addrs topics (x, y)
+          (trim_matches (rng_inter V (0, shared_len view (dw_chain wy))) (x, y) res).
+Proof. exact sync_contract. Qed.
+Print Assumptions C40_sync_contract.
+
+(* composition with the index invariant (C40_inv_init / C40_inv_step): a query running
+   over worlds that all satisfy the invariant, whose indexed block range only grows while
+   the query runs and whose syncs report ValidBlocks with their intended meaning, returns
+   exactly the scan of its final chain view *)
+Theorem C40_dyn_exact_worlds :
+  forall (P : params) (addr_value topic_value : N -> N)
+         (row_hash : N -> nat -> N -> N) (col_index : N -> N -> N),
+  (forall lv v, N.shiftr (col_index lv v) (p_hbits P) = lv mod vpm P) ->
+  p_brl P < two32 ->
+  forall fuel0 fuel (env_world : nat -> dworld) (env_valid : nat -> rng) addrs topics firstB lastB ms,
+  (forall t, wf_chain (dw_chain (env_world t))) ->
+  (forall t, inv P addr_value topic_value row_hash col_index fuel0
+                 (mkIState (dw_chain (env_world t)) (dw_ix (env_world t)) (dw_rg (env_world t)))) ->
+  (forall t t', (t <= t')%nat ->
+     fst (indexed_blocks (dw_rg (env_world t'))) <= fst (indexed_blocks (dw_rg (env_world t))) /\
+     snd (indexed_blocks (dw_rg (env_world t))) <= snd (indexed_blocks (dw_rg (env_world t')))) ->
+  (forall t b, fst (env_valid t) <= N.of_nat b -> N.of_nat b < snd (env_valid t) ->
+     nth_error (dw_chain (env_world (t - 1)%nat)) b = nth_error (dw_chain (env_world t)) b) ->
+  d_range_logs P addr_value topic_value row_hash col_index fuel env_world env_valid addrs topics firstB lastB = DOk ms ->
+  exists t, let view := dw_chain (env_world t) in
+            scan view addrs topics (resolve firstB view) (resolve lastB view) = Some ms.
+Proof. exact dyn_exact_worlds. Qed.
+Print Assumptions C40_dyn_exact_worlds.
+
 (* non-vacuity: a concrete parameter set and hash functions satisfying [col_high]
    (8 values per map, 2 hash bits, rows of length 2 so the third equal value overflows to
    layer 1), a rendered map, and a filter that finds the log at index 9 *)
@@ -304,3 +394,10 @@ Example C40_nonvacuous_head_guard : head_guard demoP demo_st0 demo_new 2 5.
 Proof. exact demo_head_guard. Qed.
 Example C40_nonvacuous_history : c40_demo_history = true.
 Proof. vm_compute. reflexivity. Qed.
+
+(* non-vacuity of the running-query theorems: a query over blocks 0..latest during which
+   the demo chain is reorged between the first indexed search and its sync (ValidBlocks
+   shrinks to the shared prefix) returns the 8 logs of the scan of the new chain *)
+Example C40_nonvacuous_running_query : c40_demo_dyn = true.
+Proof. vm_compute. reflexivity. Qed.
+
